@@ -11,7 +11,7 @@ Floats are IEEE bit patterns.
      idx   : decoded state index per epoch `i,i,…` (the decoder is a parameter of the model), or `x` = no decoding
    → `ok <STATES> # <inference>` : per observation (separated by `|`) the states `px,py,edge,d0,d1` separated by `;`
      (inference: one state per observation separated by `;`, `_` when idx = x)
-   | `err zerodiv` | `err unbound` | `err index`
+   | `err zerodiv` | `err index`
   curv <geometry>  → the abs_curv column of a geometry (computeAbsCurv)
   net <edges> <late> <res> <margin> <call> <call> …      (`Model/MapMatchNet`: construction path, index of C08, front end)
      edges : `|`-separated `id:s:t:orientation:sx,sy:tx,ty:geometry` — the `Edge` (geometry `x,y;x,y;…`, its abs_curv column is
@@ -35,7 +35,8 @@ def eps : Float := Float.ofBits 4367597403136100796   -- 1e-16
 
 def showErr : MapMatch.Err → String
   | .proj .zerodiv => "err zerodiv"
-  | .proj .unbound => "err unbound"
+  | .proj .index => "err index"
+  | .proj .overflow => "err overflow"
   | .index => "err index"
 
 def pt? (s : String) : Option (Float × Float) :=
@@ -60,7 +61,8 @@ def flFloat (x : Float) : Int :=
 
 def showErrN : MapMatch.ErrN → String
   | .mm (.proj .zerodiv) => "Ezerodiv"
-  | .mm (.proj .unbound) => "Eunbound"
+  | .mm (.proj .index) => "Eindex"
+  | .mm (.proj .overflow) => "Eoverflow"
   | .mm .index => "Eindex"
   | .grid .zerodiv => "Ezerodiv"
   | .grid .index => "Eindex"
